@@ -208,6 +208,10 @@ var exhExemptAt = map[string]struct {
 		[]string{"ast.ArrayConst", "ast.BlockAddressConst", "ast.CharArrayConst", "ast.DSOLocalEquivalentConst", "ast.FloatConst", "ast.GlobalIdent", "ast.NoCFIConst", "ast.NoneConst", "ast.NullConst", "ast.StructConst"},
 		"a getelementptr index must have integer or integer-vector type; this constant kind never has one, so LLVM rejects the input (not a valid module)",
 	},
+	"asm.newType switch(ast.LlvmNode)": {
+		[]string{"ast.NamedType"},
+		"createTypeDefs calls newType only for definitions whose body is not a named type; aliases (`%a = type %b`) are resolved by resolveTypeAlias to the entry of the aliased definition instead of getting an object of their own",
+	},
 	"asm.(*generator).irMetadata switch(ast.Metadata)": {
 		[]string{"ast.DIArgList"},
 		"module-level metadata context: !DIArgList is function-local metadata, which LLVM rejects outside a function (the function-level translator handles it before delegating here)",
@@ -407,6 +411,9 @@ func ruleSIB(c *Ctx) []Obligation {
 						mode = "reaches the error-returning default"
 					}
 					o.Detail = fmt.Sprintf("case %s is handled by a sibling switch (%s) but missing here: the node %s", k, strings.Join(names, ", "), mode)
+					if why := exhSwitchExempt(ts.key(), strings.TrimPrefix(k, "*")); why != "" && o.Verdict == VIOL {
+						o.Verdict, o.Detail = EXEMPT, why
+					}
 				}
 				obs = append(obs, o)
 			}
